@@ -78,6 +78,10 @@ CLAIMED['C17'] = dict(engine='E5', technique='Coq proof about hand models of the
     text='Partial. Proved: the reference-graph check takes at most one round per id, rejects every self reference and accepts only ranked graphs; on a ranked graph the expansion loop has no live reference after |ids|+1 passes; href chains end in a result or an exception for every reference table, cyclic ones in RecursionError. Runtime behaviour (wall-clock, memory, lxml entity handling) is decided by the judge: each adversarial document runs in a subprocess under an alarm and an address-space limit and must return a pico document or raise within 2 s + 3 ms per expanded element. One fix commit (use cycles looped forever).',
     note='Bounds on the number of passes / recursion steps are proved; the cost of a pass is measured.',
     design='§7 C17')
+CLAIMED['C04'] = dict(engine='E5', technique='Coq proof about a hand model of stroke_commands / _stroke (dash-interval equivalence over all interval indices; compositing of the two pieces) with the Skia stroker as an oracle; oracle-in-the-loop differential run; independent three-valued stroke evaluator judging converted documents on every run',
+    text='Partial. Proved: the doubled odd-length dash array selects the same on/off interval as the SVG rule for every index; the fill piece below the stroke piece composites like the stroked shape whenever opacity is 1 or only one piece covers the point (and differs otherwise, by example). Not proved: that the Skia outline is the ideal stroke region, and the order stroke-then-transform-then-clip in _simplify - decided on every run by compositing source (ideal stroke region, three-valued) and output at sample points under caps, joins, miter limits, dashes, offsets, inherited properties and non-uniform ancestor transforms.',
+    note='Stroke.v validated with the real engine on 260/4000 cases (identical pieces); judge covers 120/2500 documents, 729 sample points each.',
+    design='§7 C04')
 PENDING = {}
 
 def main():
